@@ -9,7 +9,8 @@ static std::vector<std::string> g_fonts; static std::vector<std::vector<std::str
 static std::vector<std::string> utf8_chars(const std::string &s) { std::vector<std::string> v; size_t i = 0; while (i < s.size()) { size_t j = i + 1; while (j < s.size() && (uint8_t(s[j]) & 0xC0) == 0x80) ++j; v.push_back(s.substr(i, j - i)); i = j; } return v; }
 static void setup(Runner &r, const Tier &t) {
     g_fonts.clear(); g_items.clear(); g_cases.clear();
-    for (auto &sf : shipped_fonts()) { if (std::string(sf.file) == "tiny.ttf") continue; std::vector<std::string> items = corpus_items(sf.corpus, t.thorough ? 0 : 120, true); std::set<std::string> seen(items.begin(), items.end());
+    for (auto &sf : shipped_fonts()) { if (std::string(sf.file) == "tiny.ttf") continue; const bool coll = std::string(sf.file).find("Awami") != std::string::npos;     // the collision fonts: the whole corpus even in quick (kern / shift colliders are reached by few lines)
+        std::vector<std::string> items = corpus_items(sf.corpus, (t.thorough || coll) ? 0 : 1500, true); std::set<std::string> seen(items.begin(), items.end());
         std::vector<std::string> lines = corpus_items(sf.corpus, t.thorough ? 60 : 12, false);
         for (auto &l : lines) { std::vector<std::string> ch = utf8_chars(l); for (size_t a = 0; a < ch.size() && a < 60; ++a) { std::string sub; for (size_t k = 0; k < 4 && a + k < ch.size(); ++k) { sub += ch[a + k]; if (seen.insert(sub).second) items.push_back(sub); } } }
         int fi = int(g_fonts.size()); g_fonts.push_back(sf.file); g_items.push_back(items); for (int it = 0; it < int(items.size()); ++it) g_cases.push_back({ fi, it }); }
@@ -31,4 +32,25 @@ static void setup(Runner &r, const Tier &t) {
             if (wf == 0 && dir < 2) { SegDumpOpts o; o.positions = false; o.attrs = false; ctl.cls(hash_str(dump_segment(s, o))); }
             gr_seg_destroy(s); } };
 }
-int main(int argc, char **argv) { std::vector<Sub> subs; { Sub s; s.name = "shipped_corpora"; s.setup = setup; s.budget_quick = 140; s.budget_thorough = 1200; s.counter_names = { "segments_on_accepted_mutants" }; subs.push_back(s); } return check_main(argc, argv, "C03c", subs); }
+
+// ---- encodings: UTF-16 and UTF-32 input (the corpora and the program families feed UTF-8): every unit sequence of length 1..4 over alphabets with paired, unpaired and
+// reversed surrogates / out-of-range values; the char-infos must be the reference decoding (one U+FFFD per ill-formed unit) with code-unit offsets as bases
+struct ECase { int font, enc; uint32_t code; int len; }; static std::vector<ECase> g_enc; static std::vector<std::string> g_efonts;
+static const uint32_t A16[7] = { 0x41, 0x62, 0xD83D, 0xDE00, 0xD800, 0xDFFF, 0xFFFF }, A32[6] = { 0x41, 0x62, 0x1F600, 0x10FFFF, 0x110000, 0xFFFFFFFFu };
+static void setup_enc(Runner &r, const Tier &) {
+    g_enc.clear(); g_efonts = { gen_dir() + "/s_full.ttf", "Padauk.ttf" };
+    for (int f = 0; f < int(g_efonts.size()); ++f) for (int enc = 0; enc < 2; ++enc) { int na = enc == 0 ? 7 : 6; for (int L = 1; L <= 4; ++L) { uint32_t n = 1; for (int k = 0; k < L; ++k) n *= na; for (uint32_t c = 0; c < n; ++c) g_enc.push_back({ f, enc, c, L }); } }
+    r.ncases = g_enc.size(); r.case_alarm_s = 60; r.shard_init = [](int) { g_fc = new FaceCache; };
+    r.describe = [](uint64_t i) { const ECase &c = g_enc[i]; JObj o; o.kv("font", g_efonts[c.font]).kv("encoding", c.enc == 0 ? "utf16" : "utf32").kv("length", c.len).kv("sequence_code", (unsigned long long)c.code).kv("dirs", "0,1"); return o; };
+    r.body = [](uint64_t i, ShardCtl &ctl) { const ECase &c = g_enc[i]; gr_face *f = g_fc->get(g_efonts[c.font], gr_face_preloadAll); if (!f) return;
+        std::vector<uint32_t> u; { uint32_t x = c.code; int na = c.enc == 0 ? 7 : 6; for (int k = 0; k < c.len; ++k) { u.push_back(c.enc == 0 ? A16[x % na] : A32[x % na]); x /= na; } }
+        std::vector<uint16_t> b16; std::vector<uint32_t> b32; std::vector<ref::Decoded> dec;
+        if (c.enc == 0) { for (uint32_t v : u) b16.push_back(uint16_t(v)); size_t p = 0; while (p < b16.size()) { ref::Decoded d = ref::dec16(&b16[p], b16.size() - p, p); dec.push_back(d); p += d.units; } b16.push_back(0); b16.push_back(0); }
+        else { b32 = u; size_t p = 0; while (p < b32.size()) { ref::Decoded d = ref::dec32(&b32[p], b32.size() - p, p); dec.push_back(d); p += d.units; } b32.push_back(0); b32.push_back(0); }
+        for (int dir = 0; dir < 2; ++dir) { gr_segment *s = gr_make_seg(nullptr, f, 0, nullptr, c.enc == 0 ? gr_utf16 : gr_utf32, c.enc == 0 ? (const void*)b16.data() : (const void*)b32.data(), dec.size(), dir); ctl.counters[0] = ctl.counters[0] + 1; if (!s) continue;
+            SegExpect e; e.nchars = dec.size(); e.chars = &dec; e.strict_chars = true; e.n_glyphs = gr_face_n_glyphs(f); std::vector<SegViolation> v; check_segment(s, e, v);
+            for (auto &x : v) { JObj o; o.kv("prop", x.prop).kv("kind", "structural_invariant").kv("what", x.what).kv("font", g_efonts[c.font]).kv("encoding", c.enc == 0 ? "utf16" : "utf32").kv("units_hex", c.enc == 0 ? hex(b16.data(), (b16.size() - 2) * 2) : hex(b32.data(), (b32.size() - 2) * 4)).kv("dir", dir); report_fail(i, o); break; }
+            gr_seg_destroy(s); }
+        ctl.cls(uint64_t(c.enc) * 1000003 + c.code * 7 + c.len); };
+}
+int main(int argc, char **argv) { std::vector<Sub> subs; { Sub s; s.name = "shipped_corpora"; s.setup = setup; s.budget_quick = 140; s.budget_thorough = 1200; s.counter_names = { "segments_on_accepted_mutants" }; subs.push_back(s); } { Sub s; s.name = "encodings"; s.setup = setup_enc; s.budget_quick = 60; s.budget_thorough = 120; s.counter_names = { "segments" }; subs.push_back(s); } return check_main(argc, argv, "C03c", subs); }
